@@ -248,6 +248,10 @@ class SFTPFile(BufferedFile):
         ):
             while len(self._reqs):
                 req = self._reqs.popleft()
+                if req not in self.sftp._expecting:
+                    # already read while another request on this connection
+                    # was waiting for its answer (an error is kept for close)
+                    continue
                 t, msg = self.sftp._read_response(req)
                 if t != CMD_STATUS:
                     raise SFTPError("Expected status")
